@@ -129,6 +129,8 @@ def sub_predicate(inp):
     m = inp['m']
     kind = inp['kind']
     text = mast.render(('pred', m) if kind == 'predicate' else m)
+    for t in inp.get('before', ()):
+        lib.outcome(kind, t)  # history: texts parsed (and rejected) just before; their outcome is not judged here
     k, a = lib.outcome(kind, text)
     if k != 'ast':
         raise Violation(
@@ -172,7 +174,31 @@ def gen_predicate(ch):
         m, T, schema, aliases = gen.standalone_terms(ch, depth=depth)
     else:
         m, schema, aliases = gen.standalone_predicates(ch, depth=depth)
-    return {'kind': kind, 'm': m, 'this': schema, 'aliases': aliases}
+    inp = {'kind': kind, 'm': m, 'this': schema, 'aliases': aliases}
+    if kind != 'expression' and ch.int(0, 2) == 0:
+        # an ill-typed relative first (one reference used at a type its other uses exclude; sometimes with more of the
+        # predicate behind the clash): rejected, and then the well-typed predicate must still be accepted
+        from hplverif.checks import c05
+
+        req = {r: mk for r, mk in c05.required_masks(m).items() if mk and mk != c05.REF_KIND_MASK}
+        cands = [(r, mk) for r, mk in sorted(req.items(), key=repr) if any(not (u & mk) for u in c05.USES)]
+        if cands:
+            ref, mk = ch.pick(cands)
+            use = c05.USES[ch.pick([u for u in sorted(c05.USES) if not (u & mk)])](ref)
+            bad = mast.binop('and', use, m) if ch.bool() else mast.binop('and', mast.binop('and', m, use), m)
+            inp['before'] = [mast.render(('pred', bad) if kind == 'predicate' else bad)]
+        if ch.bool():
+            # ... or an ill-typed relative of ANOTHER predicate over the same small pool of field names (other schema, so
+            # the same names at other types), the clash in front of the rest
+            m2, _schema2, _aliases2 = gen.standalone_predicates(ch, depth=ch.int(2, 3))
+            req2 = {r: mk for r, mk in c05.required_masks(m2).items() if mk and mk != c05.REF_KIND_MASK}
+            cands2 = [(r, mk) for r, mk in sorted(req2.items(), key=repr) if any(not (u & mk) for u in c05.USES)]
+            if cands2:
+                ref, mk = ch.pick(cands2)
+                use = c05.USES[ch.pick([u for u in sorted(c05.USES) if not (u & mk)])](ref)
+                bad2 = mast.binop('and', mast.binop('and', use, ref if mk == c05.B else use), m2)
+                inp['before'] = inp.get('before', []) + [mast.render(('pred', bad2) if kind == 'predicate' else bad2)]
+    return inp
 
 
 def gen_f12(ch):
